@@ -42,6 +42,8 @@ REQUIRED_REACH = [
     "probe:fault_after_first_output_write",
     "probe:clean_run_output_compared",
     "probe:execution_repeated_in_same_process",
+    "probe:derived_failure_after_valid_original_in_same_process",
+    "probe:derived_failure_alone",
 ]
 
 ENTRIES = ("string", "with_emitter", "assemble", "patch", "cli")
@@ -117,6 +119,14 @@ ERROR_CLASSES: dict[str, dict[str, Any]] = {
     "address_beyond_24_bits": {"scope": "asm", "text": "*=0x1008000\n.db 1"},
     # code that runs off the end of the last mapped ROM bank into an unmapped bank
     "run_off_mapped_rom": {"scope": "asm", "text": "*=$ROMEND\n.dl 0x111111, 0x222222"},
+    "undefined_inside_nested_expression": {"scope": "asm", "text": ".dw -(2 + undefined_zq) * 3"},
+    # Evaluations that abort half-way on the current tree.  Whether these *ought* to be errors is not
+    # something C14 states (comparison operators are lexed; a tree that evaluated them would still hold
+    # the property), so C14 does not judge them: they only serve as history / probe content for C19.
+    "comparison_in_data_expression": {"scope": "asm", "text": ".db -1 > 0", "c19_only": True},
+    "comparison_with_pending_operator": {"scope": "asm", "text": ".dw 1 + 2 == 3", "c19_only": True},
+    "comparison_in_operand": {"scope": "asm", "text": "lda.w #1 + 2 < 3", "c19_only": True},
+    "negative_shift_count": {"scope": "asm", "text": ".db 1 << -1", "c19_only": True},
     "missing_incbin": {"scope": "asm", "text": ".incbin 'missing_zq.bin'"},
     "missing_table": {"scope": "asm", "text": ".table 'missing_zq.tbl'"},
     "missing_ips": {"scope": "asm", "text": ".include_ips 'missing_zq.ips', 0"},
@@ -344,6 +354,64 @@ def run_single(case: dict[str, Any], stats: Stats) -> list[Violation]:
     return out
 
 
+def derived_variant(case: dict[str, Any]) -> progen.Prog | None:
+    """The base program with the k-th removable statement of main.s removed."""
+    prog = progen.Prog.from_record(case["prog"])
+    k = 0
+    for p in progen.iter_removals(prog):
+        if p.inc_roots != prog.inc_roots:
+            break  # removals inside included files come last; only main.s is varied here
+        if k == case["remove"]:
+            return p
+        k += 1
+    return None
+
+
+def run_derived(case: dict[str, Any], stats: Stats) -> list[Violation]:
+    """A failing program derived from a valid one by deleting a statement something else depends on (a
+    macro definition, a label, a constant, a table).  'Cannot be assembled' is decided by the in-memory
+    API in a pristine process; the variant is then given to an entry point - alone, or right after the
+    valid original was assembled in the same process (what an IDE / build server / test-suite does) -
+    and must be reported as a failure there too."""
+    prog = progen.Prog.from_record(case["prog"])
+    variant = derived_variant(case)
+    if variant is None:
+        return []
+    vfiles, vroles = variant.all_files(), variant.all_roles()
+    twin = twin_of(vfiles, vroles, variant.mapping, [list(d) for d in variant.defines])
+    stats.add_outcome(twin)
+    if twin["ok"] or twin["kind"] == "timeout":
+        stats.bump("derived:removal_leaves_a_valid_program(no verdict)")
+        return []
+    files, roles = prog.all_files(), out_roles(prog.all_roles())
+    files["variant.s"] = vfiles["main.s"]
+    roles["variant.s"] = "source"
+    spec2 = dict(case["spec"], src="variant.s")
+    op2 = {"op": "exec", "spec": spec2, "knobs": {}, "faults": []}
+    after_valid = bool(case.get("after_valid"))
+    if after_valid:
+        op1 = {"op": "exec", "spec": dict(case["first_spec"]), "knobs": {}, "faults": []}
+        first, o = entries.execute(files, roles, [op1, op2])
+        stats.add_outcome(first)
+        stats.bump("probe:derived_failure_after_valid_original_in_same_process")
+    else:
+        (o,) = entries.execute(files, roles, [op2])
+        stats.bump("probe:derived_failure_alone")
+    stats.add_outcome(o)
+    entry = spec2["entry"]
+    why = (twin.get("exc") or {}).get("type") or "error_returned"
+    stats.state(entry, "derived:" + why, after_valid, prog.mapping)
+    if o["kind"] == "timeout":
+        return []
+    detail = {"outcome": {k: o.get(k) for k in ("kind", "ret", "exc", "announced", "log_tail", "stdout", "argv")}, "in_memory_alone": twin.get("exc") or twin.get("ret")}
+    rep = " right after the valid original was assembled in the same process" if after_valid else ""
+    if o["ok"]:
+        return [Violation("success_reported_on_failure", f"{entry}|derived:{why}" + ("|after_valid" if after_valid else ""), f"{entry}{rep}: the program fails in memory in a fresh process ({twin.get('exc') or twin.get('ret')}) but the caller was told success (kind={o['kind']} ret={o.get('ret')!r})", case, detail)]
+    if o["announced"]:
+        return [Violation("success_announced_on_failure", f"{entry}|derived:{why}", f"{entry}{rep}: non-success status {o.get('ret')!r}/{o.get('exc')} but success was announced", case, detail)]
+    return []
+
+
 # ---------------------------------------------------------------------------
 # base case: enumerate
 
@@ -373,6 +441,8 @@ def sub_cases(case: dict[str, Any], stats: Stats) -> Iterator[dict[str, Any]]:
     # (2) D6: error class x slot (seeded entry) + error class x entry product at a seeded slot
     slots = list(progen.iter_slots(prog))
     for klass in ERROR_CLASSES:
+        if ERROR_CLASSES[klass].get("c19_only"):
+            continue
         if klass == "unmapped_bank" and not prog.unmapped_addr:
             continue
         if klass in ("run_off_mapped_rom", "address_beyond_24_bits", "branch_64k_away") and "map" in prog.features:
@@ -401,6 +471,22 @@ def sub_cases(case: dict[str, Any], stats: Stats) -> Iterator[dict[str, Any]]:
             others = keep + rest[: max(0, SLOTS_PER_CLASS - len(keep))]
         for s in others:
             yield dict(base, spec=specs[rng.choice(ENTRIES)], insert={"class": klass, "slot": s}, knobs=benign_knobs(krng) if rng.random() < 0.3 else {}, repeat=rng.random() < 0.15)
+    # (2b) failures derived from the valid program itself: one statement of main.s removed
+    defs: list[int] = []
+    rest: list[int] = []
+    for k, (_p, node, file) in enumerate(progen.iter_removals(prog, with_node=True)):  # type: ignore[misc]
+        if file != "main.s":
+            break
+        t = (node.get("h") or node.get("t") or "").strip()
+        is_def = t.endswith(":") or t.startswith((".macro", ".table", ".scope", ".incbin", ".include")) or " = " in t or ":=" in t
+        (defs if is_def else rest).append(k)
+    rng.shuffle(defs)
+    rng.shuffle(rest)
+    cap = 16 if case.get("tier") != "thorough" else 64
+    picks = defs[:cap] + rest[: max(2, cap - len(defs))] if len(defs) < cap else defs[:cap]
+    for k in picks:
+        e2 = rng.choice(ENTRIES)
+        yield dict(base, type="derived", remove=k, spec=specs[e2], after_valid=rng.random() < 0.6, first_spec=specs[rng.choice(ENTRIES)])
     # (3) D5: failing user Writer
     twin = twin_of(prog.all_files(), prog.all_roles(), prog.mapping, [list(d) for d in prog.defines])
     for e in ("string", "with_emitter"):
@@ -431,6 +517,8 @@ def sub_cases(case: dict[str, Any], stats: Stats) -> Iterator[dict[str, Any]]:
 def run_case(case: dict[str, Any], stats: Stats) -> list[Violation]:
     if case.get("type") == "single":
         return run_single(case, stats)
+    if case.get("type") == "derived":
+        return run_derived(case, stats)
     prog = progen.Prog.from_record(case["prog"])
     twin = twin_of(prog.all_files(), prog.all_roles(), prog.mapping, [list(d) for d in prog.defines])
     stats.add_outcome(twin)
@@ -442,7 +530,7 @@ def run_case(case: dict[str, Any], stats: Stats) -> list[Violation]:
     for sub in sub_cases(case, stats):
         if runner_should_stop():
             break
-        for v in run_single(sub, stats):
+        for v in (run_derived(sub, stats) if sub.get("type") == "derived" else run_single(sub, stats)):
             key = v.klass + "|" + v.sig
             if key not in seen:
                 seen.add(key)
@@ -453,6 +541,11 @@ def run_case(case: dict[str, Any], stats: Stats) -> list[Violation]:
 
 
 def sample_of(case: dict[str, Any]) -> Any:
+    if case.get("type") == "derived":
+        variant = derived_variant(case)
+        c = {k: v for k, v in case.items() if k != "prog"}
+        c["sources"] = {"main.s": progen.render(progen.Prog.from_record(case["prog"]).root), "variant.s": progen.render(variant.root) if variant else None}
+        return core.to_jsonable(c)
     if case.get("type") == "single":
         prog, files, _roles = build_files(case)
         c = {k: v for k, v in case.items() if k != "prog"}
